@@ -21,6 +21,16 @@ var c12P = bf.P128
 
 const c12Name = "prio3.fp128"
 
+// c12ConstReader repeats one encoding for ever.
+type c12ConstReader []byte
+
+func (c c12ConstReader) Read(p []byte) (int, error) {
+	for i := range p {
+		p[i] = c[i%len(c)]
+	}
+	return len(p), nil
+}
+
 func TestVerifC12_fp128(t *testing.T) {
 	if c := os.Getenv("VERIF_CONFIG"); c != "" && c != "default" {
 		t.Skip("pure Go code: identical in every configuration; run under default only")
@@ -102,9 +112,10 @@ func TestVerifC12_fp128(t *testing.T) {
 		pairs = f.Prepare("e", bf.Append(P, ia, bf.Thin(lim, r.Pick(700, 2500)-len(ia))))
 	}
 	small := f.Prepare("k", bf.Thin(all.Ops, r.Pick(60, 160)))
+	f.CheckAccepted(r, "UnmarshalBinary", all)
 	r.Set("elements", all.Len())
 	r.Set("pair_elements", pairs.Len())
-	r.Rule("operands: residues below the modulus entered through UnmarshalBinary: 32-bit-word products over a 12/18-value word list (top and bottom words free, middle words tied to 00/FF), the integer alphabet around every 32/16-bit boundary (and modulus minus those, R, R^2, 1/R), 32 pseudo-random; ALL ordered pairs of the pair list for Add/Sub/Mul and the *Assign forms, junk-filled outputs, aliasing z=x, z=y, x=y, z=x=y; pair sweeps above 1.5e6 cases are counted by the ordered_pairs counters instead of being hashed into distinct_nontrivial; a distinct case is one (operation, operand tuple)")
+	r.Rule("operands: residues below the modulus entered through UnmarshalBinary: 32-bit-word products over a 12/18-value word list (top and bottom words free, middle words tied to 00/FF), the integer alphabet around every 32/16-bit boundary (and modulus minus those, R, R^2, 1/R), 32 pseudo-random; ALL ordered pairs of the pair list for Add/Sub/Mul and the *Assign forms, junk-filled outputs, aliasing z=x, z=y, x=y, z=x=y; pair sweeps above 1.5e6 cases are counted by the ordered_pairs counters instead of being hashed into distinct_nontrivial; codec sweep: every alphabet value plus boundary integers of the encoding (0.., p-3..p+3, 2^bits-3.., p with each limb replaced by boundary words, high limb at each boundary x low limbs 00/FF) through Fp/Vec (first, middle, last position)/Poly decoding, re-encoding and rejection sampling; a distinct case is one (operation, operand tuple)")
 	r.NotExhaustive("operands are the declared alphabet, not all residues")
 
 	bin := []bf.BinOp{
@@ -218,32 +229,129 @@ func TestVerifC12_fp128(t *testing.T) {
 	if new(big.Int).Mod(new(big.Int).Sub(P, big.NewInt(1)), new(big.Int).Lsh(big.NewInt(1), nr)).Sign() != 0 {
 		t.Fatalf("2^%d does not divide p-1", nr)
 	}
-	// UnmarshalBinary of non-canonical strings: refused, or the right residue
-	for k := int64(0); k <= 1; k++ {
-		for d := int64(-2); d <= 2; d++ {
-			v := new(big.Int).Add(new(big.Int).Mul(P, big.NewInt(k)), big.NewInt(d))
-			if v.Sign() < 0 || v.BitLen() > 8*fp.Size {
-				continue
-			}
-			z := new(fp.Fp)
-			r.Eval(1)
-			if err := z.UnmarshalBinary(bf.LE(v, fp.Size)); err == nil {
-				f.Expect(r, "UnmarshalBinary", "accepted", fmt.Sprintf("%s.UnmarshalBinary#%dp%+d", c12Name, k, d), z, v, true, v)
-				r.Count(c12Name+".UnmarshalBinary.accepted", 1)
-			} else {
-				r.Count(c12Name+".UnmarshalBinary.refused", 1)
-			}
+	// ---- conversion from and to bytes: Fp, Vec and Poly codecs, rejection sampling ----
+	// every alphabet value plus boundary integers of the encoding: MarshalBinary(UnmarshalBinary(enc(v))) = enc(v) for v < p,
+	// UnmarshalBinary refuses exactly the values >= p, at the first / middle / last position of a vector
+	encLim := bf.Pow2(8 * fp.Size)
+	var cod []bf.Operand
+	cod = append(cod, all.Ops...)
+	cod = append(cod, bf.Around(new(big.Int), 0, 3, "0")...)
+	cod = append(cod, bf.Around(P, -3, 3, "p")...)
+	cod = append(cod, bf.Around(encLim, -3, -1, "2^bits")...)
+	cod = append(cod, bf.Around(new(big.Int).Rsh(encLim, 1), -1, 1, "2^(bits-1)")...)
+	pl := bf.ToLimbs(P, fp.Size/8)
+	for i := range pl { // p with limb i replaced by boundary words, and +-1 on it
+		for _, w := range []uint64{0, 1, pl[i] - 1, pl[i], pl[i] + 1, 1<<63 - 1, 1 << 63, ^uint64(0) - 1, ^uint64(0)} {
+			l := append([]uint64{}, pl...)
+			l[i] = w
+			cod = append(cod, bf.Operand{V: bf.FromLimbs(l), Name: "p[limb" + fmt.Sprint(i) + "=w]"})
 		}
 	}
-	allff := make([]byte, fp.Size)
-	for i := range allff {
-		allff[i] = 0xff
+	for _, hi := range []uint64{0, 1, pl[len(pl)-1] - 1, pl[len(pl)-1], pl[len(pl)-1] + 1, ^uint64(0)} { // high limb at each boundary x low limbs 00 / FF
+		for _, lo := range []uint64{0, ^uint64(0)} {
+			l := make([]uint64, len(pl))
+			for i := range l {
+				l[i] = lo
+			}
+			l[len(l)-1] = hi
+			cod = append(cod, bf.Operand{V: bf.FromLimbs(l), Name: "hi-boundary"})
+		}
 	}
-	if err := new(fp.Fp).UnmarshalBinary(allff); err == nil {
-		r.Count(c12Name+".UnmarshalBinary.accepted", 1)
-	} else {
-		r.Count(c12Name+".UnmarshalBinary.refused", 1)
+	cod = bf.Append(encLim, cod)
+	filler := bf.LE(bf.Pseudo(c12Name+"-filler", 0, P), fp.Size)
+	var nAcc, nRef int
+	codecBad := func(fn, class, cid, what string, v *big.Int) {
+		rng := "reduced"
+		if v.Cmp(P) >= 0 {
+			rng = "unreduced"
+		}
+		r.Violation("C12|"+c12Name+"."+fn+"|"+class+"|-|"+rng, cid, what, map[string]string{"value": v.Text(16)})
 	}
+	for ci, o := range cod {
+		v := o.V
+		enc := bf.LE(v, fp.Size)
+		valid := v.Cmp(P) < 0
+		cid := fmt.Sprintf("%s.codec#%d", c12Name, ci)
+		if r.Replaying() && r.ReplayCase() != cid {
+			continue
+		}
+		r.Distinct(cid)
+		// scalar
+		z := new(fp.Fp)
+		err := z.UnmarshalBinary(enc)
+		r.Eval(1)
+		switch {
+		case valid && err != nil:
+			codecBad("UnmarshalBinary", "refuses-canonical-value", cid, fmt.Sprintf("Fp.UnmarshalBinary(%x) (value %x < p): %v", enc, v, err), v)
+		case !valid && err == nil:
+			codecBad("UnmarshalBinary", "accepts-value-above-modulus", cid, fmt.Sprintf("Fp.UnmarshalBinary(%x) (value %x >= p) accepted", enc, v), v)
+		case valid:
+			nAcc++
+			out, merr := z.MarshalBinary()
+			if merr != nil || string(out) != string(enc) {
+				codecBad("MarshalBinary", "round-trip", cid, fmt.Sprintf("MarshalBinary(UnmarshalBinary(%x)) = %x, %v", enc, out, merr), v)
+			}
+		default:
+			nRef++
+		}
+		// vectors and polynomials: the value at the first, middle and last position of 5 elements
+		for _, pos := range []int{0, 2, 4} {
+			buf := make([]byte, 0, 5*fp.Size)
+			for k := 0; k < 5; k++ {
+				if k == pos {
+					buf = append(buf, enc...)
+				} else {
+					buf = append(buf, filler...)
+				}
+			}
+			vec := make(fp.Vec, 5)
+			verr := vec.UnmarshalBinary(buf)
+			r.Eval(1)
+			if valid != (verr == nil) {
+				codecBad("Vec.UnmarshalBinary", map[bool]string{true: "refuses-canonical-value", false: "accepts-value-above-modulus"}[valid], cid,
+					fmt.Sprintf("Vec.UnmarshalBinary with %x at position %d of 5: err=%v", enc, pos, verr), v)
+				continue
+			}
+			if valid {
+				out, merr := vec.MarshalBinary()
+				if merr != nil || string(out) != string(buf) {
+					codecBad("Vec.MarshalBinary", "round-trip", cid, fmt.Sprintf("Vec round trip with %x at position %d changed the bytes", enc, pos), v)
+				}
+				if f.Raw(&vec[pos]).Cmp(v) != 0 {
+					codecBad("Vec.UnmarshalBinary", "wrong-value", cid, fmt.Sprintf("Vec.UnmarshalBinary position %d holds %x, want %x", pos, f.Raw(&vec[pos]), v), v)
+				}
+				// Poly shares the representation: evaluate at 1 gives the coefficient sum
+				pol := fp.Poly(vec)
+				var onE fp.Fp
+				onE.SetOne()
+				sum := pol.Evaluate(&onE)
+				want := new(big.Int).Mul(bf.FromLE(filler), big.NewInt(4))
+				want.Add(want, v).Mod(want, P)
+				if f.Raw(&sum).Cmp(want) != 0 {
+					codecBad("Poly.Evaluate", "wrong-value", cid, fmt.Sprintf("Poly(decoded).Evaluate(1) = %x, want %x", f.Raw(&sum), want), v)
+				}
+			}
+			// wrong total length must be refused
+			if vec.UnmarshalBinary(buf[:len(buf)-1]) == nil || vec.UnmarshalBinary(append(buf, 0)) == nil {
+				codecBad("Vec.UnmarshalBinary", "accepts-wrong-length", cid, "Vec.UnmarshalBinary accepted a truncated / extended string", v)
+			}
+		}
+		// rejection sampling sees the same range check: a reader that only produces enc
+		var rz fp.Fp
+		rerr := rz.Random(c12ConstReader(enc))
+		rv := make(fp.Vec, 3)
+		rverr := rv.Random(c12ConstReader(enc))
+		r.Eval(2)
+		if valid != (rerr == nil) || valid != (rverr == nil) || (valid && (f.Raw(&rz).Cmp(v) != 0 || f.Raw(&rv[2]).Cmp(v) != 0)) {
+			codecBad("Random", map[bool]string{true: "refuses-canonical-value", false: "accepts-value-above-modulus"}[valid], cid,
+				fmt.Sprintf("Random from a stream of %x: err=%v/%v value %x", enc, rerr, rverr, f.Raw(&rz)), v)
+		}
+	}
+	r.Count(c12Name+".codec.values", len(cod))
+	r.Count(c12Name+".codec.accepted", nAcc)
+	r.Count(c12Name+".codec.refused", nRef)
+	r.RequireCounter(c12Name+".codec.accepted", 100)
+	r.RequireCounter(c12Name+".codec.refused", 5)
 	for i := 0; i < 3; i++ {
 		k := i*all.Len()/3 + 5
 		r.Sample(map[string]string{"element": all.Ops[k].Name, "value": all.Ops[k].V.Text(16)})
